@@ -56,6 +56,8 @@ type tsShape struct {
 }
 type tsConfig struct {
 	Latency int64
+	// DefaultBW, when > 0, is the listener-wide default bandwidth (bytes per second, both ways)
+	DefaultBW int64
 	Shapes  []*tsShape
 	invalid string
 	raw     string
@@ -65,8 +67,12 @@ func (c *tsConfig) JSON() string {
 	if c.raw != "" {
 		return c.raw
 	}
+	def := map[string]interface{}{"latency": c.Latency}
+	if c.DefaultBW != 0 {
+		def["bandwidth"] = map[string]interface{}{"up": c.DefaultBW, "down": c.DefaultBW}
+	}
 	m := map[string]interface{}{"trafficshape": map[string]interface{}{
-		"default": map[string]interface{}{"latency": c.Latency},
+		"default": def,
 		"shapes":  c.Shapes,
 	}}
 	b, _ := json.Marshal(m)
@@ -85,7 +91,7 @@ func (c *tsConfig) clone() *tsConfig {
 			}
 		}
 	}
-	return &tsConfig{Latency: c.Latency, Shapes: shapes}
+	return &tsConfig{Latency: c.Latency, DefaultBW: c.DefaultBW, Shapes: shapes}
 }
 
 func genTSConfig(k *kernel.K, gen int) *tsConfig {
@@ -93,6 +99,9 @@ func genTSConfig(k *kernel.K, gen int) *tsConfig {
 	c := &tsConfig{}
 	if w.Chance(1, 3) {
 		c.Latency = int64([]int{10, 200, 1500}[w.Draw(3)])
+	}
+	if w.Chance(1, 6) {
+		c.DefaultBW = int64([]int{1000, 4000}[w.Draw(2)])
 	}
 	paths := []string{"/alpha", "/beta", "/gamma"}
 	for i, n := 0, w.Range(1, 3); i < n; i++ {
@@ -143,7 +152,7 @@ func genTSConfig(k *kernel.K, gen int) *tsConfig {
 func genBadTSConfig(k *kernel.K) *tsConfig {
 	w := k.W
 	good := genTSConfig(k, 0)
-	c := &tsConfig{Latency: good.Latency, Shapes: good.Shapes}
+	c := &tsConfig{Latency: good.Latency, DefaultBW: good.DefaultBW, Shapes: good.Shapes}
 	s := c.Shapes[0]
 	switch w.Draw(7) {
 	case 0:
@@ -448,7 +457,7 @@ func runC18(k *kernel.K) {
 							got = len(tp.Cur.Body)
 						}
 						k.Fail("C18.bytes_exact", map[string]string{"shaped": "false", "mode": "tunnel"}, "%s: tunnelled bytes match no shape, yet the client did not receive the response intact (%d of %d body bytes, eof=%v)", desc, got, len(e.body), cl.SawEOF)
-					} else if el := k.Now() - t0; el > 2*connLatency+2*time.Millisecond {
+					} else if el := k.Now() - t0; el > 2*connLatency+2*time.Millisecond && (connModel == nil || connModel.DefaultBW == 0) {
 						k.Fail("C18.unmatched_undelayed", map[string]string{"mode": "tunnel"}, "%s: tunnelled bytes match no shape, yet the exchange took %v of simulated time (latency %v)", desc, el, connLatency)
 					}
 				}
@@ -538,6 +547,24 @@ func c18Check(k *kernel.K, e *tsEx, cl *Client, model *tsConfig, latency time.Du
 		want := time.Duration(0)
 		if first {
 			want = latency
+		}
+		if model != nil && model.DefaultBW > 0 {
+			// the default bandwidth of the configuration the connection was accepted under applies
+			k.Probe("default_bandwidth")
+			nbytes := int64(got.HeadLen + len(got.Body))
+			// (the first buffer goes through Conn.Write and the listener's write bucket, the rest
+			// through Conn.ReadFrom and its read bucket: each grants one bucket at once, and the
+			// drain ticks may fall right after the start of either part: up to four buckets for free)
+			if secs := (nbytes+model.DefaultBW-1)/model.DefaultBW - 4; secs > 0 && elapsed < time.Duration(secs)*time.Second-time.Millisecond {
+				k.Fail("C18.default_bandwidth_delay", nil, "%s matches no shape; the default bandwidth is %d B/s, yet %d bytes were delivered in %v, the token bucket needs at least %d s; cumulative writes %v", desc, model.DefaultBW, nbytes, elapsed, secs, func() []string {
+					var ws []string
+					for _, st := range stamps {
+						ws = append(ws, fmt.Sprintf("%d@%v", st.cum, st.at))
+					}
+					return ws
+				}())
+			}
+			return
 		}
 		// reads and writes each simulate the latency once per connection
 		if elapsed > 2*want+2*time.Millisecond {
@@ -768,7 +795,20 @@ func c18CheckStale(k *kernel.K, e *tsEx, cl *Client, oldModel, newModel *tsConfi
 		k.Fail("C18.accept_only_new_conns", map[string]string{"effect": "cut"}, "%s: the client received %d of %d body bytes (complete=%v, eof=%v): %s; the old shape set would close at %d (-1: no close)", desc, n, len(e.body), complete, cl.SawEOF, how, oldClose)
 		return
 	}
-	if oldShape == nil && newShape != nil {
+	oldBW := int64(0)
+	if oldModel != nil {
+		oldBW = oldModel.DefaultBW
+	}
+	if oldShape == nil && oldBW == 0 && newModel != nil && newModel.DefaultBW > 0 {
+		// neither a shape nor a default bandwidth of the old configuration concerns this exchange:
+		// the new default bandwidth must not slow it down
+		k.Probe("old_connection_new_default_bandwidth")
+		if elapsed >= 900*time.Millisecond && elapsed > 2*latency+2*time.Millisecond {
+			k.Fail("C18.accept_only_new_conns", map[string]string{"effect": "delay", "cause": "default_bandwidth"}, "%s: took %v of simulated time for %d body bytes; the configuration the connection was accepted under has no default bandwidth and no shape for this URL, the NEW one has a default bandwidth of %d B/s", desc, elapsed, len(e.body), newModel.DefaultBW)
+		}
+		return
+	}
+	if oldShape == nil && oldBW == 0 && newShape != nil {
 		// nothing of the old set concerns this URL: the response must not be delayed by the new one
 		minHalt := time.Duration(0)
 		for _, h := range newHalts {
